@@ -22,63 +22,53 @@ type (
 func NewCond(l Locker) *Cond { return sync.NewCond(l) }
 
 type Mutex struct {
-	mu   sync.Mutex
-	held atomic.Int32
+	mu sync.Mutex
+	st sched.LockState
 }
 
-func (m *Mutex) CanProceed(int) bool { return m.held.Load() == 0 }
-
 func (m *Mutex) Lock() {
-	sched.Point(sched.OpLock, m, unsafe.Pointer(m))
+	sched.Point(sched.OpLock, sched.KMutex, &m.st, unsafe.Pointer(m))
 	m.mu.Lock()
-	m.held.Store(1)
+	m.st.A.Store(1)
 }
 
 func (m *Mutex) Unlock() {
-	m.held.Store(0)
+	m.st.A.Store(0)
 	m.mu.Unlock()
 }
 
 func (m *Mutex) TryLock() bool {
 	if m.mu.TryLock() {
-		m.held.Store(1)
+		m.st.A.Store(1)
 		return true
 	}
 	return false
 }
 
 type RWMutex struct {
-	mu      sync.RWMutex
-	writer  atomic.Int32
-	readers atomic.Int32
-}
-
-func (m *RWMutex) CanProceed(op int) bool {
-	if op == sched.OpRLock {
-		return m.writer.Load() == 0
-	}
-	return m.writer.Load() == 0 && m.readers.Load() == 0
+	mu sync.RWMutex
+	st sched.LockState
 }
 
 func (m *RWMutex) Lock() {
-	sched.Point(sched.OpLock, m, unsafe.Pointer(m))
+	sched.Point(sched.OpLock, sched.KRW, &m.st, unsafe.Pointer(m))
 	m.mu.Lock()
-	m.writer.Store(1)
+	m.st.A.Store(1)
 }
 
 func (m *RWMutex) Unlock() {
-	m.writer.Store(0)
+	m.st.A.Store(0)
 	m.mu.Unlock()
 }
 
 func (m *RWMutex) RLock() {
-	sched.Point(sched.OpRLock, m, unsafe.Pointer(m))
+	sched.Point(sched.OpRLock, sched.KRW, &m.st, unsafe.Pointer(m))
 	m.mu.RLock()
-	m.readers.Add(1)
+	m.st.B.Add(1)
 }
 
 func (m *RWMutex) RUnlock() {
-	m.readers.Add(-1)
+	m.st.B.Add(-1)
 	m.mu.RUnlock()
 }
 
@@ -91,23 +81,21 @@ func (r *rlocker) Unlock() { (*RWMutex)(r).RUnlock() }
 
 // Once: a scheduling point only while the function has not completed.
 type Once struct {
-	once    sync.Once
-	done    atomic.Int32
-	running atomic.Int32
+	once sync.Once
+	done atomic.Int32
+	st   sched.LockState
 }
-
-func (o *Once) CanProceed(int) bool { return o.running.Load() == 0 }
 
 func (o *Once) Do(f func()) {
 	if o.done.Load() == 1 {
 		o.once.Do(f) // fast path of the real Once (keeps its happens-before edge)
 		return
 	}
-	sched.Point(sched.OpOnce, o, unsafe.Pointer(o))
+	sched.Point(sched.OpOnce, sched.KOnce, &o.st, unsafe.Pointer(o))
 	o.once.Do(func() {
-		o.running.Store(1)
+		o.st.A.Store(1)
 		defer func() {
-			o.running.Store(0)
+			o.st.A.Store(0)
 			o.done.Store(1)
 		}()
 		f()
